@@ -258,6 +258,23 @@ def whole_path(ctx, V):
             S += [("send", 0, ("%s %s\r\n" % (w, ",".join(tg))).encode()), ("wait", 0)]
             sc.requests.append(dict(client=0, line="%s %s" % (w, ",".join(tg)), word=w, targets=tg, mode="long-ranged", step=len(S) - 2))
         scs.append(sc)
+    # directed: for EVERY ranged command a script that commands each plug separately inside a foreachplug / foreachnode, and a request naming
+    # a strict subset of the device's nodes (the plugs a foreach visits are the targeted ones, whatever the command)
+    word_of = {v: k for k, v in pmgen.CLIENT_COMS.items()}
+    for base in ("on", "off", "cycle", "reset", "beacon_on", "beacon_off"):
+        for loop in ("foreachplug", "foreachnode"):
+            rng = ctx.rng
+            cfg = pmgen.Config()
+            d = pmgen.Dev("d0", ["login", "status", base + "_ranged"], hardwired=["p1", "p2", "p3", "p4", "p5"])
+            d.bodies[base + "_ranged"] = '%s {\n\t\t\t%s\n\t\t}' % (loop, pmgen.script_text(base).replace("\n\t\t", "\n\t\t\t"))
+            cfg.devs.append(d); cfg.truth["d0"] = {"p1": "n0", "p2": "n1", "p3": "n2", "p4": "n3", "p5": None}
+            cfg.node_lines.append(("n[0-3]", "d0", "p[1-4]"))
+            tg = sorted(rng.sample(["n0", "n1", "n2", "n3"], rng.randint(1, 3)))
+            w = word_of[base]
+            S = [("connect",), ("wait", 0), ("send", 0, ("%s %s\r\n" % (w, ",".join(tg))).encode()), ("wait", 0)]
+            sc = pmcheck.Scenario(cfg, S, dict(style="directed-perplug-ranged", ncli=1, perplug=True))
+            sc.requests.append(dict(client=0, line="%s %s" % (w, ",".join(tg)), word=w, targets=tg, mode="perplug", step=2))
+            scs.append(sc)
     pmcheck.run_batch(ctx, V, exe, scs, ["alive", "c01", "protocol"], "c01d")
 
 
